@@ -75,10 +75,14 @@ func (o *Out) Violate(v Violation) { o.Meta.Violations = append(o.Meta.Violation
 
 // Write dumps <dir>/<name>.ops, .goobs, .meta.json
 func (o *Out) Write(dir, name string) error {
-	if err := os.WriteFile(dir+"/"+name+".ops", []byte(strings.Join(o.Ops, "\n")+"\n"), 0o644); err != nil {
+	ops, obs := strings.Join(o.Ops, "\n")+"\n", strings.Join(o.Obs, "\n")+"\n"
+	if len(o.Ops) == 0 {
+		ops, obs = "", "" // a stream without model operations (monitor only)
+	}
+	if err := os.WriteFile(dir+"/"+name+".ops", []byte(ops), 0o644); err != nil {
 		return err
 	}
-	if err := os.WriteFile(dir+"/"+name+".goobs", []byte(strings.Join(o.Obs, "\n")+"\n"), 0o644); err != nil {
+	if err := os.WriteFile(dir+"/"+name+".goobs", []byte(obs), 0o644); err != nil {
 		return err
 	}
 	if len(o.Logs) > 0 {
